@@ -287,7 +287,10 @@ def _stable_name(n):
     n = re.sub(r"\[.*\]\.", ".", n)
     n = re.sub(r"\[[^\[\]]*\]$", "", n)   # trailing [scope / count] label
     # E2 wrapper names: drop the configuration (width/container/order/backing/enum type) and counts
-    n = re.sub(r"^((?:read|write)_[a-z]+)_[A-Za-z0-9]+_w\d+_c\d+_[A-Za-z]+_[a-z]+\.", r"\1.", n)
+    n = re.sub(r"^((?:noopt:)?(?:read|write)_[a-z]+)_[A-Za-z0-9]+_w\d+_c\d+_[A-Za-z]+_[a-z0-9_]+\.", r"\1.", n)
+    n = re.sub(r"^(arith_[A-Za-z]+)_[a-z0-9_]+\.", r"\1.", n)
+    n = re.sub(r"^((?:encode|decode)_)[a-z0-9_]+\.", r"\1.", n)
+    n = re.sub(r"\{[^{}]*\}(:[a-z-]+)?", r"\1", n)      # selector values of case-split ensures
     n = re.sub(r"^(write_bcdwide)_w\d+_c\d+_[A-Za-z]+_[a-z]+\.", r"\1.", n)
     if re.search(r"\.(flag|unwind)(\[\d+\]|:.*)$", n):
         return None            # presence depends on the optimiser's output, not on the contract
